@@ -183,6 +183,12 @@ impl Lifecycle {
         self.resume_lc.is_some()
     }
 
+    /// verification hook: id of the lifecycle this one resumes (if any)
+    #[cfg(adlt_verif)]
+    pub fn verif_resume_origin_id(&self) -> Option<LifecycleId> {
+        self.resume_lc.as_ref().map(|r| r.id)
+    }
+
     /// create a new lifecycle with the first msg passed as parameter
     pub fn new(msg: &mut DltMessage) -> Lifecycle {
         // println!("new lifecycle created by {:?}", msg);
